@@ -38,7 +38,7 @@ Lemma run_hook_hooks cfg (H : all_hooks cfg) st h k st' r ev :
   run_hook cfg st h k = (st', r, ev) -> hooks_of ev = [(h, k)] /\ r = c_faults cfg h k.
 Proof.
   destruct H as [Hd Hh]. unfold run_hook. rewrite Hd, Hh. cbn [orb negb].
-  destruct (c_faults cfg h k); intros E; inversion E; subst; auto.
+  destruct (c_faults cfg h k), (c_aborts cfg h k); intros E; inversion E; subst; auto.
 Qed.
 
 Lemma run_tag_hooks_hooks cfg (H : all_hooks cfg) h tags : forall st st' r ev,
@@ -313,10 +313,10 @@ Proof.
   exists (hooks_of e2). split.
   - repeat (rewrite ?hooks_of_app). rewrite A1, B1, (hooks_of_quiet _ (cleanup_events_quiet _)). reflexivity.
   - intros Hf. unfold run_hook in E1. rewrite Hd, Hh, Hf in E1. cbn in E1. inversion E1; subst.
-    cbn [aborted negb] in E2. rewrite run_features_stopped in E2. inversion E2; subst.
+    cbn [aborted set_aborted negb is_all_hook orb] in E2. rewrite run_features_stopped in E2. inversion E2; subst.
     repeat split; try reflexivity.
-    + repeat (rewrite ?call_ids_app). rewrite C3, (allq_calls _ (cleanup_events_quiet _)). reflexivity.
+    + repeat (rewrite ?call_ids_app). rewrite C1, C3, (allq_calls _ (cleanup_events_quiet _)). reflexivity.
     + cbn [existsb hook_raised app orb]. now rewrite !orb_true_r.
     + unfold run_hook in E3. rewrite Hd, Hh in E3. cbn in E3.
-      destruct (c_faults cfg HAfterAll 0); inversion E3; subst; reflexivity.
+      destruct (c_faults cfg HAfterAll 0), (c_aborts cfg HAfterAll 0); inversion E3; subst; reflexivity.
 Qed.
